@@ -86,12 +86,20 @@ def run(chk, cases, opts, tag, owned, jobs=12, timeout=3000, confirm=True, chunk
     failing = [(i, [f for f in r['fail'] if f['kind'] in owned]) for i, r in sorted(results.items())]
     failing = [(i, fl) for i, fl in failing if fl]
     # only failures that re-fail when the case is run once more count (one representative per signature)
-    bysig = {}
+    bysig, count = {}, {}
     for i, fl in failing:
         c = json.loads(cases[i])
         for f in fl:
-            bysig.setdefault(sig_of(f, c, results[i].get('info', {})), (i, f))
-    reps = sorted(set(i for i, _ in bysig.values()))[:300]
+            s = sig_of(f, c, results[i].get('info', {}))
+            bysig.setdefault(s, (i, f))
+            count[s] = count.get(s, 0) + 1
+    # at most 40 distinct signatures are reported (a broken hull fails on thousands of inputs)
+    import re
+    known = [k for k in vf.known_findings() if k.get('property') == chk.pid and k.get('status', 'open') == 'open']
+    is_known = lambda s: any(re.fullmatch(k['signature'], s) for k in known)
+    order = sorted(bysig.items(), key=lambda kv: (len(cases[kv[1][0]]), kv[0]))
+    keep = [kv for kv in order if not is_known(kv[0])][:40] + [kv for kv in order if is_known(kv[0])][:20]
+    reps = sorted(set(i for _, (i, _) in keep))
     again = {}
     if reps and confirm:
         inp2 = '%s/beh%s.confirm.ndjson' % (work, tag)
@@ -99,13 +107,13 @@ def run(chk, cases, opts, tag, owned, jobs=12, timeout=3000, confirm=True, chunk
         res2, cr2 = vf.drive('seq', args, inp2, inp2 + '.res', timeout=900)
         for n, i in enumerate(reps):
             again[i] = None if n not in res2 else set(f['kind'] for f in res2[n]['fail'])
-    for sig, (i, f) in sorted(bysig.items()):
+    for sig, (i, f) in keep:
         if confirm and again.get(i) is not None and f['kind'] not in again[i]:
             continue                                   # not repeatable: no verdict
         c = json.loads(cases[i])
-        n_same = sum(1 for j, fl in failing for g in fl if sig_of(g, json.loads(cases[j]), results[j].get('info', {})) == sig)
-        chk.violation(sig, '%s [%s]: %s on %s -- %s (%d case(s) with this signature)' % (
-            f['kind'], f['detail'].get('route'), f['detail'].get('why'), case_text(c), json.dumps(f['detail'])[:300], n_same),
+        chk.violation(sig, '%s [%s]: %s on %s -- %s (%d case(s) with this signature, %d signatures in this run)' % (
+            f['kind'], f['detail'].get('route'), f['detail'].get('why'), case_text(c), json.dumps(f['detail'])[:300],
+            count[sig], len(bysig)),
             {'driver': args, 'behaviour': c, 'failure': f})
     return results
 
